@@ -60,6 +60,9 @@ def scenario(exe, base, name, steps, valgrind):
     ion = open(os.path.join(CONFIGS, "ion.param")).read()
     open(os.path.join(d, "ion_dark_star.param"), "w").write(ion.replace("luminosity: 1.e+47 Hz", "luminosity: 0. Hz"))
     open(os.path.join(d, "ion_dark_field.param"), "w").write(ion.replace("total flux: 1.e8 m^-2 s^-1", "total flux: 0. m^-2 s^-1"))
+    # a task space that is re-used many times over within one iteration (the element counter of ThreadSafeVector wraps around
+    # its size repeatedly); the peak simultaneous use stays well below the size
+    open(os.path.join(d, "ion_small_taskspace.param"), "w").write(ion.replace("number of tasks: 30000", "number of tasks: 250"))
     res = []
     for a in steps:
         rc, out = run_binary(exe, d, a, valgrind)
@@ -80,6 +83,7 @@ def scenarios(thorough):
         "ionization_diffuse_continuous_2threads": [["--task-based", "--params", "ion.param", "--threads", "2", "--dirty"]],
         "ionization_dark_star_2threads": [["--task-based", "--params", "ion_dark_star.param", "--threads", "2", "--dirty"]],
         "ionization_dark_field_2threads": [["--task-based", "--params", "ion_dark_field.param", "--threads", "2", "--dirty"]],
+        "ionization_small_taskspace_2threads": [["--task-based", "--params", "ion_small_taskspace.param", "--threads", "2", "--dirty"]],
     }
     if thorough:
         S.update({
